@@ -2,6 +2,9 @@
 #include "values.hpp"
 namespace vh
 {
+volatile int           g_in_library_call  = 0;
+volatile unsigned long g_library_call_seq = 0;
+
 ICache* make_cache(const Cfg& cfg)
 {
     switch (cfg.kind)
